@@ -111,25 +111,6 @@ func SubValue(sub bool) ValueLitOptFn {
 	}
 }
 
-var basicKinds = map[reflect.Kind]bool{
-	reflect.Bool:       true,
-	reflect.Int:        true,
-	reflect.Int8:       true,
-	reflect.Int16:      true,
-	reflect.Int32:      true,
-	reflect.Int64:      true,
-	reflect.Uint:       true,
-	reflect.Uint8:      true,
-	reflect.Uint16:     true,
-	reflect.Uint32:     true,
-	reflect.Uint64:     true,
-	reflect.Uintptr:    true,
-	reflect.Float32:    true,
-	reflect.Float64:    true,
-	reflect.Complex64:  true,
-	reflect.Complex128: true,
-}
-
 func (d *Dumper) ValueLit(in any, optFns ...ValueLitOptFn) string {
 	rv, ok := in.(reflect.Value)
 	if !ok {
@@ -156,11 +137,14 @@ func (d *Dumper) ValueLit(in any, optFns ...ValueLitOptFn) string {
 
 	switch tpe.Kind() {
 	case reflect.Ptr:
-		kind := rv.Elem().Kind()
-		if _, ok := basicKinds[kind]; ok {
-			return fmt.Sprintf("func(v %s) *%s { return &v }(%s)", kind, kind, d.ValueLit(rv.Elem(), optFns...))
+		elem := rv.Elem()
+		switch elem.Kind() {
+		case reflect.Struct, reflect.Map, reflect.Slice, reflect.Array:
+			// only composite literals are addressable
+			return fmt.Sprintf("&(%s)", d.ValueLit(elem, optFns...))
 		}
-		return fmt.Sprintf("&(%s)", d.ValueLit(rv.Elem(), optFns...))
+		elemType := d.ReflectTypeLit(elem.Type())
+		return fmt.Sprintf("func(v %s) *%s { return &v }(%s)", elemType, elemType, d.ValueLit(elem, optFns...))
 	case reflect.Struct:
 		buf := bytes.NewBufferString(d.ReflectTypeLit(tpe))
 		buf.WriteString(`{`)
